@@ -1294,3 +1294,231 @@ def check_C14(ck):
     })
     ck.assumptions = ["that distinct policy keys give distinct template instantiations and hence distinct statics is a property of the C++ compiler; it is observed, not proved",
                       "policies made by replace / remove keep the key and are documented to share static data; they are not claimed isolated"]
+
+
+# ----------------------------------------------------------------------------------------------------
+# C12 static offsets, C13 codec, C19 forward declarations  (generator policies: tag ids 0..63)
+
+def gen_tag_script(rng, pol="gen", shapes=None, dump=True, dup_records=False, unused_classes=True):
+    reg = gen.gen_registry(rng, n_classes=rng.randint(2, 9), shapes=shapes or ["V", "NV", "VN", "VV", "VNV", "NVVN", "VVV", "VVVV"], max_defs=7)
+    n_c = len(reg.parents)
+    extra = rng.randint(0, 3) if unused_classes else 0     # classes no method touches
+    tags = rng.sample(range(1, 60), n_c + extra)
+    ids = [[t] for t in tags[:n_c]]
+    style = rng.choice(gen.STYLES)
+    lines, meta = gen.emit_script(rng, reg, pol, style=style, ids=ids, dump=dump, callnext=False, max_calls=60)
+    k = lines.index("update")
+    pre = lines[:k]
+    for j, t in enumerate(tags[n_c:]):
+        pos = rng.randint(1, len(pre))
+        pre.insert(pos, "class %d %d 0 %d" % (800 + j, t, t))
+    if dup_records:
+        cl = [l for l in pre if l.startswith("class ")]
+        for l in rng.sample(cl, min(len(cl), rng.randint(1, 2))):
+            t = l.split()
+            t[1] = str(int(t[1]) + 500)
+            pre.insert(rng.randint(1, len(pre)), " ".join(t))
+    return pre, lines[k:], reg
+
+
+def check_C12(ck):
+    rng = random.Random(repr((ck.seed, "C12")))
+    scripts = load_corpus("C12")
+    n = tier_n(ck, 400, 6000)
+    ar_hist = {}
+    for i in range(n):
+        pre, post, reg = gen_tag_script(rng, shapes=["V", "NV", "VV", "VNV", "NVVN", "VVV", "VVVV", "VVVV", "VVV"])
+        for m in reg.methods:
+            a = gen.arity(m["shape"])
+            ar_hist[str(a)] = ar_hist.get(str(a), 0) + 1
+        scripts.append(("o%d" % i, pre + ["update", "dump", "offsets"]))
+
+    def c12_oracle(bad, by_name, impl_out):
+        for name, lines in scripts:
+            out = verif.visible(impl_out.get(name, []))
+            inst = {}
+            for l in out:
+                m = re.match(r"ss (-?\d+) \[(.*)\]", l)
+                if m:
+                    inst[m.group(1)] = [int(x) for x in m.group(2).split(",") if x]
+            for l in out:
+                m = re.match(r"offsets .*static_offsets<M(-?\d+)> \{static constexpr std::size_t slots\[\] = \{(.*?)\};(?: static constexpr std::size_t strides\[\] = \{(.*?)\};)? \};", l)
+                if l.startswith("offsets ") and not m:
+                    return (name, lines, {"kind": "failing input: generated offsets are not of the expected form", "implementation": l})
+                if m:
+                    slots = [int(x) for x in m.group(2).split(",") if x.strip()]
+                    strides = [int(x) for x in (m.group(3) or "").split(",") if x.strip()]
+                    ss = inst.get(m.group(1))
+                    if ss is not None and slots + strides != ss:
+                        return (name, lines, {"kind": "failing input: generated static offsets differ from the installed ones",
+                                              "method": int(m.group(1)), "generated": {"slots": slots, "strides": strides}, "installed_slots_then_strides": ss})
+        return None
+    impl_out, model_out, nbad = correspondence(ck, scripts, "C12: text of the generated static offsets", oracle=False, extra_oracle=c12_oracle)
+    f = c12_oracle(None, None, impl_out)
+    if f and not ck.violations:
+        f[2].update(property="C12", script=f[1])
+        ck.violation(verif.write_replay("C12", f[0], f[2]), True)
+    ck.coverage = proof_coverage(ck, ["C12"], {
+        "evaluations": len(scripts), "distinct_nontrivial": len({repr(l) for _, l in scripts}),
+        "rule": "registries with methods of arity 1-4 (arity 3 and 4 over-represented) under a policy whose ids are std::type_info pointers; after update the "
+                "real generator writes the static offsets, whose text is compared with the model's and whose numbers are compared with the installed slots/strides",
+        "methods_by_arity": ar_hist, "traces_validated_against_impl": len(scripts),
+        "samples": [{"name": n_, "script": ls[-12:]} for n_, ls in scripts[:1]],
+    })
+    ck.assumptions = ["programs compiled against the generated header (static_offsets specialisations, the debug cross-check) are exercised by the H-prog tier, not here"]
+
+
+def check_C13(ck):
+    rng = random.Random(repr((ck.seed, "C13")))
+    scripts = load_corpus("C13")
+    n = tier_n(ck, 400, 6000)
+    for i in range(n):
+        pol = "gen" if rng.random() < 0.7 else "genh"
+        pre, post, reg = gen_tag_script(rng, pol=pol, dup_records=(rng.random() < 0.3 and pol == "gen"))
+        calls = [l for l in post if l.startswith("call ")]
+        body = pre + ["update"] + (["dump"] if pol == "gen" else []) + ["encode"] + calls + ["echo D", "decode"] + calls
+        scripts.append(("e%d-%s" % (i, pol), body))
+
+    def c13_oracle(bad, by_name, impl_out):
+        for name, lines in scripts:
+            out = verif.visible(impl_out.get(name, []))
+            if any(l.startswith(("!signal", "!exit")) for l in out):
+                return (name, lines, {"kind": "failing input: encoding or decoding crashed / read or wrote outside the emitted structure", "output": out[-4:]})
+            if "@D" not in out:
+                continue
+            k = out.index("@D")
+            before = [l for l in out[:k] if l.startswith(("ran", "raised"))]
+            after = [l for l in out[k:] if l.startswith(("ran", "raised"))]
+            dec = [l for l in out[k:] if l.startswith("decode")]
+            if dec and dec[0] != "decode ok":
+                return (name, lines, {"kind": "failing input: the emitted data cannot be decoded", "implementation": dec[0]})
+            if before != after:
+                d_ = [z for z in zip(before, after) if z[0] != z[1]][:1]
+                return (name, lines, {"kind": "failing input: calls after decoding differ from calls after update", "first_difference": d_})
+        return None
+    impl_out, model_out, nbad = correspondence(ck, scripts, "C13: extents, the three encoded streams, decoded words, v-table pointers, calls before and after decoding",
+                                               oracle=False, extra_oracle=c13_oracle)
+    f = c13_oracle(None, None, impl_out)
+    if f and not ck.violations:
+        f[2].update(property="C13", script=f[1])
+        ck.violation(verif.write_replay("C13", f[0], f[2]), True)
+    empty = sum(1 for ls in impl_out.values() for l in ls if l.startswith("class ") and l.endswith("vtbl=[]"))
+    nonzero_first = sum(1 for ls in impl_out.values() for l in ls if l.startswith("class ") and " first=0 " not in l)
+    ck.coverage = proof_coverage(ck, ["C13"], {
+        "evaluations": len(scripts), "distinct_nontrivial": len({repr(l) for _, l in scripts}),
+        "rule": "registries (uni- and multi-methods, error cells, classes no method touches, lattices whose v-tables do not start at slot 0, 30% with a class "
+                "registered twice) under two generator policies; the real encoder's text is parsed, laid out in a heap block of exactly the emitted struct's "
+                "layout (ASan guards both ends), decoded in place by the real decoder; extents, streams, decoded words and calls are compared with the model, "
+                "and the calls after decoding with the calls after update",
+        "classes_with_empty_vtbl": empty, "classes_with_first_slot_nonzero": nonzero_first,
+        "traces_validated_against_impl": len(scripts),
+        "samples": [{"name": n_, "script": ls[:30]} for n_, ls in scripts[:1]],
+    })
+    ck.assumptions = ["acceptance of the emitted text by g++ and clang++ is checked by the thorough tier on a sample; here the text is parsed by the harness",
+                      "encoded values are below 2^14 (method indices, group indices) as the 16-bit encoding requires"]
+
+
+NAME_ALPHA = "abcXY_019"
+
+
+def rand_ident(rng):
+    first = rng.choice("abcXYZ_q")
+    return first + "".join(rng.choice(NAME_ALPHA) for _ in range(rng.randint(0, 3)))
+
+
+def rand_qualified(rng, pool):
+    depth = rng.choice([0, 0, 1, 1, 2, 3])
+    return "::".join(rng.choice(pool) for _ in range(depth + 1))
+
+
+def rand_type(rng, pool, depth=0):
+    r = rng.random()
+    fundamental = ["int", "void", "double", "unsigned long", "char const*", "wchar_t", "bool", "long long", "char16_t"]
+    if depth > 2 or r < 0.25:
+        return rng.choice(fundamental)
+    if r < 0.55:
+        q = rand_qualified(rng, pool)
+        return q + rng.choice(["", "&", " const&", "*", " const*", "&&", " volatile&"])
+    if r < 0.7:
+        return "std::" + rng.choice(["vector", "shared_ptr", "pair"]) + "<" + ", ".join(rand_type(rng, pool, depth + 1) for _ in range(rng.randint(1, 2))) + ">" + rng.choice(["", " const&", "&"])
+    if r < 0.85:
+        return rand_qualified(rng, pool) + rng.choice(["<", " <"]) + ", ".join(rand_type(rng, pool, depth + 1) for _ in range(rng.randint(1, 2))) + ">" + rng.choice(["", "*"])
+    if r < 0.93:
+        return "yorel::yomm2::virtual_<" + rand_type(rng, pool, depth + 1) + ">"
+    return rand_type(rng, pool, depth + 1) + " (" + ", ".join(rand_type(rng, pool, depth + 1) for _ in range(rng.randint(0, 3))) + ")"
+
+
+def check_C19(ck):
+    rng = random.Random(repr((ck.seed, "C19")))
+    scripts = load_corpus("C19")
+    n = tier_n(ck, 600, 10000)
+    nsets = 0
+    for i in range(n):
+        lines = []
+        for j in range(8):
+            pool = [rand_ident(rng) for _ in range(rng.randint(2, 5))]
+            # identifiers that are string prefixes of one another
+            if rng.random() < 0.5:
+                pool.append(pool[0] + rng.choice(NAME_ALPHA))
+            if rng.random() < 0.5:
+                names = [rand_qualified(rng, pool) for _ in range(rng.randint(1, 7))]
+                lines.append("fwd-names " + " ".join(names))
+                nsets += 1
+            else:
+                lines.append("fwd-type " + rand_type(rng, pool))
+        scripts.append(("w%d" % i, lines))
+
+    def parse_decls(text):
+        """names declared by the text, or None when it is not balanced / well formed"""
+        toks = text.split("|")
+        stack, out = [], []
+        for t in toks:
+            if not t:
+                continue
+            m = re.fullmatch(r"namespace ([A-Za-z_]\w*) \{", t)
+            if m:
+                stack.append(m.group(1))
+                continue
+            m = re.fullmatch(r"class ([A-Za-z_]\w*);", t)
+            if m:
+                out.append("::".join(stack + [m.group(1)]))
+                continue
+            if t == "}":
+                if not stack:
+                    return None
+                stack.pop()
+                continue
+            return None
+        return None if stack else out
+
+    def c19_oracle(bad, by_name, impl_out):
+        for name, lines in scripts:
+            out = verif.visible(impl_out.get(name, []))
+            fw = [l[4:] for l in out if l.startswith("fwd ")]
+            for l, text in zip(lines, fw):
+                decl = parse_decls(text)
+                if decl is None:
+                    return (name, [l], {"kind": "failing input: the forward declarations are not balanced, well-formed C++", "implementation": text})
+                if len(set(decl)) != len(decl):
+                    return (name, [l], {"kind": "failing input: a class is declared more than once", "implementation": text})
+                if l.startswith("fwd-names "):
+                    want = sorted(set(x for x in l.split()[1:] if not x.startswith(("std::", "yorel::"))
+                                      and x not in ("void", "bool", "char", "int", "float", "double", "short", "long", "signed", "unsigned", "class", "struct", "enum", "const", "volatile")))
+                    if sorted(decl) != want:
+                        return (name, [l], {"kind": "failing input: the declared classes are not exactly the requested ones", "requested": want, "declared": sorted(decl)})
+        return None
+    impl_out, model_out, nbad = correspondence(ck, scripts, "C19: text of the forward declarations for name sets and type descriptions", oracle=False, extra_oracle=c19_oracle)
+    f = c19_oracle(None, None, impl_out)
+    if f and not ck.violations:
+        f[2].update(property="C19", script=f[1])
+        ck.violation(verif.write_replay("C19", f[0], f[2]), True)
+    ck.coverage = proof_coverage(ck, ["C19"], {
+        "evaluations": sum(len(l) for _, l in scripts), "distinct_nontrivial": len({l for _, ls in scripts for l in ls}),
+        "rule": "sets of 1-7 qualified names over small identifier pools (nesting 0-3, shared and diverging prefixes, identifiers that are string prefixes "
+                "of one another, digits and underscores), and type descriptions from a grammar of cv-qualified references / pointers / std:: and user templates / "
+                "function types; the real generator's text is compared with the model's character for character, parsed for balance, and for name sets "
+                "compared with the requested set",
+        "name_sets": nsets, "traces_validated_against_impl": len(scripts),
+        "samples": [{"name": n_, "script": ls[:4]} for n_, ls in scripts[:2]],
+    })
+    ck.assumptions = ["std::regex is modelled by an equivalent hand-written scanner", "the compile check of the emitted declarations is part of the thorough tier"]
